@@ -5,6 +5,7 @@ import (
 	"encoding/json"
 	"fmt"
 	"io"
+	"net/url"
 	"sort"
 	"strings"
 	"sync"
@@ -400,8 +401,139 @@ func sortedSubsets(order string, refs []string, max int) [][]int {
 	return out
 }
 
+// c18content: merges in which the full content of every record is compared (the main search
+// compares identity, placement and order): two consecutive records larger than 4 KiB in one
+// input (the Merger holds one record while it reads the next), and inputs whose common reference
+// carries optional tags (UR, M5) in both headers. Runs in-process: no recursion is involved.
+func c18content(c *Ctx) {
+	mkRef := func(name string, l int, tagged bool) *sam.Reference {
+		var md5 []byte
+		var u *url.URL
+		if tagged {
+			md5 = bytes.Repeat([]byte{0x42}, 16)
+			u, _ = url.Parse("http://example.org/" + name + ".fa")
+		}
+		r, err := sam.NewReference(name, "", "", l, md5, u)
+		if err != nil {
+			panic(err)
+		}
+		return r
+	}
+	for _, tagged := range []bool{false, true} {
+		for _, order := range []string{"coordinate", "queryname", "unknown-custom", "unsorted"} {
+			cas := map[string]interface{}{"kind": "content", "order": order, "tagged_references": tagged}
+			guard(c, "merge:content:"+order, cas, func() {
+				var srcs []*bam.Reader
+				var want []string
+				for in := 0; in < 2; in++ {
+					refs := []*sam.Reference{mkRef("a", 100000, tagged), mkRef("b", 100000, tagged)}
+					h, _ := sam.NewHeader(nil, refs)
+					switch order {
+					case "coordinate":
+						h.SortOrder = sam.Coordinate
+					case "queryname":
+						h.SortOrder = sam.QueryName
+					case "unsorted":
+						h.SortOrder = sam.Unsorted
+					}
+					var buf bytes.Buffer
+					w, err := bam.NewWriter(&buf, h, 1)
+					if err != nil {
+						c.Violate("merge:content:writer", err.Error(), cas)
+						return
+					}
+					// input 0: two long records then a short one; input 1: one short record between them
+					type spec struct {
+						name string
+						pos  int
+						l    int
+						mapq byte
+					}
+					specs := []spec{{"n1", 10, 5000, 10}, {"n3", 30, 4500, 30}, {"n5", 50, 4, 50}}
+					if in == 1 {
+						specs = []spec{{"n2", 20, 4, 20}, {"n4", 40, 4200, 40}}
+					}
+					for _, sp := range specs {
+						seq := make([]byte, sp.l)
+						q := make([]byte, sp.l)
+						for i := range seq {
+							seq[i] = "ACGT"[(i+sp.pos)%4]
+							q[i] = byte((i + sp.pos) % 40)
+						}
+						aux, _ := sam.NewAux(sam.NewTag("XN"), sp.name)
+						rec, err := sam.NewRecord(sp.name, refs[0], refs[1], sp.pos, sp.pos+1, 0, sp.mapq, []sam.CigarOp{sam.NewCigarOp(sam.CigarMatch, sp.l)}, seq, q, []sam.Aux{aux})
+						if err != nil {
+							c.Violate("merge:content:build", err.Error(), cas)
+							return
+						}
+						if err := w.Write(rec); err != nil {
+							c.Violate("merge:content:write", err.Error(), cas)
+							return
+						}
+						t, _ := rec.MarshalText()
+						want = append(want, string(t))
+					}
+					w.Close()
+					r, err := bam.NewReader(bytes.NewReader(buf.Bytes()), 1)
+					if err != nil {
+						c.Violate("merge:content:reader", err.Error(), cas)
+						return
+					}
+					defer r.Close()
+					srcs = append(srcs, r)
+				}
+				var less func(a, b *sam.Record) bool
+				if order == "unknown-custom" {
+					less = func(a, b *sam.Record) bool { return a.MapQ < b.MapQ }
+				}
+				m, err := bam.NewMerger(less, srcs...)
+				if err != nil {
+					c.Violate("merge:content:NewMerger", err.Error(), cas)
+					return
+				}
+				var got []*sam.Record
+				for {
+					rec, err := m.Read()
+					if err == io.EOF {
+						break
+					}
+					if err != nil {
+						c.Violate("merge:content:Read-error", err.Error(), cas)
+						return
+					}
+					got = append(got, rec)
+				}
+				if len(got) != len(want) {
+					c.Violate("merge:content:count", fmt.Sprintf("%d records out, %d in", len(got), len(want)), cas)
+					return
+				}
+				hrefs := m.Header().Refs()
+				seen := map[string]bool{}
+				for _, rec := range got {
+					t, _ := rec.MarshalText()
+					seen[string(t)] = true
+					for _, rf := range []*sam.Reference{rec.Ref, rec.MateRef} {
+						if rf != nil && (rf.ID() < 0 || rf.ID() >= len(hrefs) || hrefs[rf.ID()] != rf) {
+							c.Violate("merge:content:ref-not-in-merged-header", fmt.Sprintf("record %s carries reference %s (id %d) that is not an element of the merged header", rec.Name, rf.Name(), rf.ID()), cas)
+							return
+						}
+					}
+				}
+				for _, w := range want {
+					if !seen[w] {
+						c.Violate("merge:content:record-changed", fmt.Sprintf("a record written as %q is not among the merged records (kept until the end of the merge)", clipStr(w)), cas)
+						return
+					}
+				}
+			})
+			c.Eval(1)
+			c.NontrivialN(1)
+		}
+	}
+}
+
 func c18(c *Ctx) {
-	c.Rule = "inputs: k in {1,2} (thorough also 3) BAM inputs written by bam.Writer, each any subset of <=3 (k=3: <=2) records of a 6-record alphabet (two positions on each of two references, mates on the other reference, one unplaced, one unplaced whose mate is placed) sorted in the declared order; header pairs: equal reference lists, disjoint, overlapping, same set in another order, and lists whose header order differs from name order; orders: unknown with nil less, unknown with a custom less (MAPQ), unsorted, queryname, coordinate; empty inputs included. Fault dimension (k=2): every index j of the underlying Read of one input fails. Oracle = k-way merge model: output multiset equals the union; sorted in the declared order (coordinate = merged header's reference order, then position, unplaced last; unsorted/nil less = concatenation); relative order within an input preserved; io.EOF only after all inputs; an injected read error is returned by some Read; every Ref and MateRef is an element of Merger.Header().Refs() with the name it had in its source. Non-trivial: merges with at least two non-empty inputs or a fault."
+	c.Rule = "inputs: k in {1,2} (thorough also 3) BAM inputs written by bam.Writer, each any subset of <=3 (k=3: <=2) records of a 6-record alphabet (two positions on each of two references, mates on the other reference, one unplaced, one unplaced whose mate is placed) sorted in the declared order; header pairs: equal reference lists, disjoint, overlapping, same set in another order, and lists whose header order differs from name order; orders: unknown with nil less, unknown with a custom less (MAPQ), unsorted, queryname, coordinate; empty inputs included. Fault dimension (k=2): every index j of the underlying Read of one input fails. Oracle = k-way merge model: output multiset equals the union; sorted in the declared order (coordinate = merged header's reference order, then position, unplaced last; unsorted/nil less = concatenation); relative order within an input preserved; io.EOF only after all inputs; an injected read error is returned by some Read; every Ref and MateRef is an element of Merger.Header().Refs() with the name it had in its source. Content merges: two inputs with consecutive records larger than 4 KiB, with and without UR/M5 tags on the common references, four orders, every record kept until the end and compared in full. Non-trivial: merges with at least two non-empty inputs or a fault."
 	if c.Replay != nil {
 		var cas c18case
 		if err := json.Unmarshal(c.Replay, &cas); err != nil {
@@ -466,6 +598,7 @@ func c18(c *Ctx) {
 			}
 		}
 	}
+	c18content(c)
 	var nt int64
 	ics := make([]interface{}, len(cases))
 	for i := range cases {
